@@ -274,6 +274,53 @@ def check_shapes(spec, res):
         res.count("hand_written_shapes")
 
 
+def check_global_shadowing(spec, res):
+    """Sequence: an instrumented function that uses a builtin is called, then a module global of the
+    same name appears, then it is called again - each call looks the name up like Python does
+    (globals before builtins), at the time of that call."""
+    from ptera import probing, tooled
+
+    body = "def f(p):\n    y = len([p, p]) + __s__(1, 0)\n    return y\n"
+    src = progen.PRELUDE + "\n" + body + "\ndef make_args(i):\n    return ((i,), {})\n"
+    m = {"src": src, "script": None}
+    for mode in ("tooled", "inplace", "probe-on-name", "probe-other"):
+        mod = prorun.load_src(src, spec["scratch"], f"c01shadow_{mode.replace('-', '_')}")
+        ref = prorun.load_src(src, spec["scratch"], f"c01shadowref_{mode.replace('-', '_')}")
+        res.evaluations += 1
+        res.deciding += 1
+        case = {"shadowing": mode, "src": src}
+        try:
+            fn, cm = mod.f, None
+            if mode == "tooled":
+                fn = tooled(mod.f)
+            elif mode == "inplace":
+                tooled.inplace(mod.f)
+            else:
+                cm = probing("f > len" if mode == "probe-on-name" else "f > y", env=vars(mod))
+                cm.__enter__()
+            try:
+                outs, refs = [], []
+                outs.append(prorun.run_call(mod, fn, 0, None))
+                refs.append(prorun.run_call(ref, ref.f, 0, None))
+                mod.len = ref.len = lambda seq: 1000  # a module global now shadows the builtin
+                outs.append(prorun.run_call(mod, fn, 1, None))
+                refs.append(prorun.run_call(ref, ref.f, 1, None))
+                del mod.len, ref.len
+                outs.append(prorun.run_call(mod, fn, 2, None))
+                refs.append(prorun.run_call(ref, ref.f, 2, None))
+            finally:
+                if cm is not None:
+                    cm.__exit__(None, None, None)
+        except Exception as e:
+            res.violation(case, {"what": "exception in the shadowing sequence", "error": common.fmt_exc(e)[-1000:]})
+            continue
+        for step, (o, r) in enumerate(zip(outs, refs)):
+            d = [x for x in prorun.same_outcome(r, o) if x != "args"]
+            if d:
+                res.violation(dict(case, step=step), {"what": "instrumented call differs from the untouched function after a global started / stopped shadowing a builtin", "diff": prorun.describe_diff(r, o, d)})
+        res.count("global_shadowing_sequences")
+
+
 def run_shard(spec):
     res = ShardResult()
     check_program.ilog = InteractLog()
@@ -281,6 +328,7 @@ def run_shard(spec):
     known = spec.get("known", [])
     if s0 == 0:
         check_shapes(spec, res)
+        check_global_shadowing(spec, res)
     for i in range(s0, s0 + cnt):
         rnd = rng_for("C01", spec["seed"], i)
         opts = dict(options_for(known))
